@@ -6,6 +6,8 @@
      W n       fileStore.Write of job-<segment n>.snapshot returns
      U n       the region under stateMu: superseded? obsolete := ids of completedSnapshots;
                spawn the Remove goroutine and the notifier; completedSnapshots := [n]
+     WFail n   fileStore.Write of the snapshot file of n returns an ERROR: the goroutine reports it on the error
+               channel and ends; nothing else of publication n ever runs
      R k       the k-th spawned, not yet executed Remove call runs
      TL k      the k-th notifier waiting for notifyMu gets it and checks isLatestCompleted
      TR        the subscriber receives from the notifier that holds notifyMu
@@ -37,7 +39,7 @@ Record pstate := MkP {
 
 Definition pinit : pstate := MkP [] [] 0 [] [] [] [] None [] [].
 
-Inductive pstep := Start (n : N) | W (n : N) | U (n : N) | R (k : nat) | TL (k : nat) | TR | Crash | Rewind (sp : N).
+Inductive pstep := Start (n : N) | W (n : N) | U (n : N) | R (k : nat) | TL (k : nat) | TR | Crash | Rewind (sp : N) | WFail (n : N).
 
 Definition mem (x : N) (l : list N) : bool := existsb (N.eqb x) l.
 Definition remove_id (x : N) (l : list N) : list N := filter (fun y => negb (y =? x)) l.
@@ -97,13 +99,18 @@ Definition exec1 (q : pquirks) (s : pstate) (st : pstep) : pstate :=
       end
   | Rewind sp =>
       if mem sp (written s) then MkP (files s) [sp] sp [] [] [] [] None (written s) [] else s
+  | WFail n =>
+      if mem n (inflW s)
+      then MkP (files s) (completed s) (last s) (remove_id n (inflW s)) (inflU s) (pend_rm s) (nwait s) (nhold s)
+               (written s) (received s)
+      else s
   end.
 
 Definition exec (q : pquirks) (s : pstate) (l : list pstep) : pstate := fold_left (exec1 q) l s.
 
 (* ---- the steps as the harness drives them: after each harness step every goroutine has run to its next
         blocking point, so a new notifier takes a free notifyMu at once and waiters take it in arrival order ---- *)
-Inductive hstep := HPub | HW (i : N) | HR (i : N) | HT | HCrash | HRewind (sp : N).
+Inductive hstep := HPub | HW (i : N) | HR (i : N) | HT | HCrash | HRewind (sp : N) | HWFail (i : N).
 
 Definition pick {A} (i : N) (l : list A) : option (nat * A) :=
   match l with
@@ -142,6 +149,11 @@ Definition hexec1 (q : pquirks) (s : pstate) (h : hstep) : pstate * hobs :=
   | HRewind sp =>
       let s' := exec1 q s (Rewind sp) in
       (s', OCrash (listing (files s)) (hd_error (completed s')))
+  | HWFail i =>
+      match pick i (inflW s) with
+      | Some (_, n) => (exec1 q s (WFail n), OW (Some n))
+      | None => (s, OW None)
+      end
   end.
 
 (* storage/locations/local_directory.go Write: create or TRUNCATE - the file holds exactly the bytes of the last
